@@ -48,8 +48,19 @@ def rule_t1_t2(ck, prog, S, model):
     if len(recs) < 14:
         ck.anchor_lost("C13-T1", "only %d token recognisers found" % len(recs))
         return
+    rec_names = {r.name for r in recs}
     for f in recs:
         ck.analysed(f)
+        # a recogniser that is nothing but `return other_recogniser(state, token, ...)` is decided where the work is done
+        body_stmts = [n for n in (f.body.ch if f.body is not None else [])]
+        if len(body_stmts) == 1 and body_stmts[0].k == "ReturnStmt" and body_stmts[0].ch:
+            e0 = body_stmts[0].child(0).strip_all_casts()
+            if e0.k == "CallExpr" and e0.get("callee") in rec_names and e0.get("callee") != f.name:
+                a0 = [x.strip_all_casts().get("path") for x in C.call_args(e0)]
+                if a0[:2] == [f.params[0]["name"], f.params[1]["name"]]:
+                    ck.holds("C13-T1", K.site(f, "failure-restores-cursor", 0), K.loc(f), "delegates to %s with the same state and token" % e0["callee"], nontrivial=False)
+                    ck.holds("C13-T2", K.site(f, "extent", 0), K.loc(f), "delegates to %s with the same state and token" % e0["callee"], nontrivial=False)
+                    continue
         try:
             sims = LP.simulate(model, f)
         except P.TooManyPaths:
